@@ -262,7 +262,9 @@ func (m *Monitors) uPost(h *H, a []string, r Resp) {
 	real := h.tk.realDigest(tok)
 	d := digest.Digest(real)
 	if rs.holds(real) {
-		return // short-cut: the repository holds it already, the body is not read
+		// short-cut: the repository holds it already, the body is not read; the acknowledged upload is recent all the same (C05)
+		delete(m.aged, repo+"|"+real)
+		return
 	}
 	if mTok != "" && from != "" && dTok == "" {
 		// mount: succeeds only if the source repository holds the blob
@@ -783,6 +785,7 @@ func (m *Monitors) mPut(h *H, a []string, r Resp) {
 		rs.mans[real] = ms
 	}
 	ms.blobGone = false
+	delete(m.aged, repo+"|"+real) // a pushed manifest is recent, also when its bytes were there already (C05)
 	ms.respLost = false // a push registers the manifest with its subject again
 	m.note(repo, real)
 	ms.mts[mt] = true
